@@ -56,6 +56,17 @@ impl TryFrom<CompressionWithLevel> for Compressor {
     type Error = Error;
 
     fn try_from(value: CompressionWithLevel) -> Result<Self, Self::Error> {
+        // the encoders panic when they are handed a level outside of their range
+        let level_is_supported = match value {
+            CompressionWithLevel::None => true,
+            CompressionWithLevel::Gzip(level) => level <= 9,
+            CompressionWithLevel::Xz(level) => level <= 9,
+            CompressionWithLevel::Bzip2(level) => (1..=9).contains(&level),
+            CompressionWithLevel::Zstd(_) => true, // zstd clamps the level itself
+        };
+        if !level_is_supported {
+            return Err(Error::UnsupportedCompressorType(value.to_string()));
+        }
         match value {
             CompressionWithLevel::None => Ok(Compressor::None(Vec::new())),
             #[cfg(feature = "gzip-compression")]
